@@ -112,11 +112,15 @@ Definition acase_mixed (c : acase) : bool :=
 (* ---- queries: Authorizer::query (authority + authorizer unless scoped) and query_all ---- *)
 Definition fset_subset (a b : list Datalog.fact) : bool := forallb (fun f => existsb (fact_eqb f) b) a.
 Definition fset_eq (a b : list Datalog.fact) : bool := fset_subset a b && fset_subset b a.
+(* equality as multisets: Authorizer::query lists a fact once per origin set it was derived under *)
+Definition fcount (f : Datalog.fact) (l : list Datalog.fact) : nat := length (filter (fact_eqb f) l).
+Definition fmset_eq (a b : list Datalog.fact) : bool :=
+  (length a =? length b)%nat && forallb (fun f => (fcount f a =? fcount f b)%nat) a.
 
 Definition qobs_agrees (m : res (list Datalog.fact)) (o : qobs) : bool :=
   match o, m with
   | QSkip, _ => true
-  | QFacts l, Ok l' => fset_eq l l'
+  | QFacts l, Ok l' => fmset_eq l l'
   | QFail, Err _ => true
   | _, _ => false
   end.
